@@ -1,7 +1,7 @@
 (* Props/C10.v — C10: the JSON parser (json/parse.go).
    Statements only; each is closed by [exact] of a lemma proved in coq/theories/Json/. *)
 From Verif Require Import Common.Base Common.Lx Json.Model Json.Lex Json.Spec Json.Grammar Json.Proofs Json.Trace
-  Json.GrammarProofs Json.AcceptLex Json.Accept Json.Sticky Json.Rejects Json.Stuck.
+  Json.GrammarProofs Json.AcceptLex Json.Accept Json.Sticky Json.Rejects Json.Stuck Json.Congr.
 
 (* MAIN THEOREM.  Every document of the RFC 8259 grammar (Json/Grammar.v: whitespace explicit at the six
    structural positions; all escape and number forms) is parsed to the end of the input without a parse
@@ -116,7 +116,7 @@ Print Assumptions json_err_stays.
 
 (* Next does not check p.err on entry: when the caller keeps calling after a parse error, Next goes on and
    may return units again (here: StartObject, ErrorGrammar, String), while Err() keeps the stale error. *)
-Lemma json_continues_after_error :
+Theorem json_continues_after_error :
   exists d tr, trace 3 (json_init d) = Some tr /\ grammars tr = [G_StartObject; G_Error; G_String] /\
                map (fun up => err_kind (snd up)) tr = [0; 2; 2].
 Proof. exact json_continues_after_error_proof. Qed.
@@ -195,3 +195,42 @@ Theorem json_parse_error_sticky_partial :
                         pst (snd up) = pst p) tr.
 Proof. exact parse_error_stuck_proof. Qed.
 Print Assumptions json_parse_error_sticky_partial.
+
+(* ---- the caller keeps calling after errors (C01 reading, DESIGN section 6): terminal reports ----
+   A terminal report is an ErrorGrammar call that changes neither the offset nor needComma (ErrorGrammar
+   calls never change the state stack).  Next depends only on buffer, offset, stack, needComma and reader
+   error (not on p.err or the lexeme start), hence: *)
+
+(* a terminal report is repeated by every further call: same GrammarType, offset, stack, needComma, recorded
+   error and kind of Err() *)
+Theorem json_terminal_report :
+  forall d n p u p1, json_inv d p -> next p = Some (u, p1) -> idle p u p1 ->
+    exists tr, trace n p1 = Some tr /\ length tr = n /\
+      Forall (fun up => fst up = (G_Error, None) /\ lpos (pz (snd up)) = lpos (pz p1) /\
+                        pst (snd up) = pst p1 /\ pneed (snd up) = pneed p1 /\ perr (snd up) = perr p1 /\
+                        err_kind (snd up) = err_kind p1) tr.
+Proof. exact terminal_report_proof. Qed.
+Print Assumptions json_terminal_report.
+
+(* whatever the caller does about errors, at most 2 * len d + 1 calls are not terminal reports (every such
+   call consumes a byte or sets needComma) ... *)
+Theorem json_active_calls_linear :
+  forall d n tr, trace n (json_init d) = Some tr -> count_active (json_init d) tr <= 2 * len d + 1.
+Proof. exact active_calls_linear_proof. Qed.
+Print Assumptions json_active_calls_linear.
+
+(* ... so among the first 2 * len d + 2 calls there is a terminal report *)
+Theorem json_terminal_within :
+  forall d tr, trace (Z.to_nat (2 * len d + 2)) (json_init d) = Some tr ->
+    exists pre u p1 post, tr = pre ++ (u, p1) :: post /\ idle (last_parser (json_init d) pre) u p1.
+Proof. exact terminal_within_proof. Qed.
+Print Assumptions json_terminal_within.
+
+(* The terminal report need not be io.EOF: on the input  1 1  every call after the first returns
+   ErrorGrammar with the parse error at offset 2, forever and without progress. *)
+Theorem json_parse_error_forever :
+  forall n, exists tr, trace (2 + n) (json_init [49; 32; 49]) = Some tr /\
+    grammars tr = G_Number :: G_Error :: repeat G_Error n /\
+    Forall (fun up => perr (snd up) = Some 2 /\ err_kind (snd up) = 2) (skipn 1 tr).
+Proof. exact parse_error_forever_proof. Qed.
+Print Assumptions json_parse_error_forever.
